@@ -85,12 +85,19 @@ BAD_NUM = ["", " ", "abc", "1e", "1e999", "-1e999", "nan", "inf", "-", ".", "1..
            "0x10", "1_0", "١٢", "1e-9", "1e9", "-5e3", "1 2", "+", "1e+", "∞", "NaN", "1" * 320]
 BAD_TRANSFORM = ["", "matrix(1 2)", "rotate(", "rotate()", "translate(1-2)", "scale(0)", "scale(nan)", "foo(1)", "translate(1,2,3)",
                  "matrix(1,0,0,1,0)", "rotate(1e999)", ")", "translate(1 2) rotate", "scale(1e-320)", "matrix(0 0 0 0 0 0)",
-                 "translate(abc)", "skewX(90)", "rotate(30 5)", "translate(1,,2)"]
+                 "translate(abc)", "skewX(90)", "rotate(30 5)", "translate(1,,2)",
+                 # long digit runs ending in something that is not a number (units): a validating regular expression
+                 # must not need exponential time to say no; and legal numbers of extreme magnitude
+                 "translate(0." + "0" * 33 + "1px)", "rotate(45." + "0" * 30 + "deg)", "translate(" + "1234567890" * 3 + "45px)",
+                 "scale(1" + "0" * 40 + "x)", "rotate(1e20)", "rotate(-36000000000000000000 5 5)", "translate(1e300 1e300)", "skewX(1e19)"]
 BAD_VIEWBOX = ["", "0 0", "0 0 0 0", "0 0 -1 -1", "a b c d", "0 0 100", "0,0,100,100,5", "nan nan nan nan", "0 0 1e999 1e999",
                "0 0 1e-9 1e-9", "0 0 100 100 ", "0 0 100% 100%", "none", "0 0 inf 5"]
 BAD_D = ["", "M", "M0", "M 0 0 L", "Z", "L 1 1", "M0,0 A1 1", "M0,0 L1e999,5 L5,5 Z", "M0 0 X 5 5", "M0,0 L nan 5 Z", "m", "M0,0 C1,1",
          "M0,0 A1 1 0 2 2 5 5", "0 0 L 5 5", "M0,0 L5,5 L", "M0\t0 L5 5", "M0,0 L1.,5 Z", "M.e1 0", "M0,0 a0 0 0 0 0 0 0 z", "M-,- L5,5",
-         "M0,0 " + "L1,1 " * 60 + "Q"]
+         "M0,0 " + "L1,1 " * 60 + "Q",
+         # legal arcs with an x-axis-rotation of extreme magnitude (any loop folding it into one turn must terminate)
+         "M10,10 A30,20 1e20 0 1 90,50", "M10,10 A30,20 -1e30 0 1 90,50 Z", "M10,10 a30,20 36000000000000000000 1 0 40,40",
+         "M10,10 A30,20 1e12 0 1 90,50", "M0,0 L" + "1" * 40 + "px,5"]
 BAD_POINTS = ["", "0", "0,0 5", "a,b", "0,0 nan,5 5,5", "1e999,0 5,5 0,5", "0 0 5 5 0", ",", "0,0,5,5,0,5,", "0;0 5;5"]
 BAD_STYLE = ["", ":", ";;;", "fill", "fill:", ":red", "fill:red;fill", "stroke-width:abc", "fill:url(#nope)", "fill:url(", "a:b:c",
              "fill:red;;stroke:", "opacity:nan", "clip-path:url(#nope)", "transform:rotate(", "fill:red !important", "/*x*/fill:red",
